@@ -716,7 +716,7 @@ fn worker_history(id: &str, tier: &str, seed: u64) -> ExitCode {
     let batch = Batch {
         runs,
         threads: threads(),
-        max_wall: Duration::from_secs(if tier == "thorough" { 5400 } else { 900 }),
+        max_wall: Duration::from_secs(env_u64("VERIF_MAX_WALL_S").unwrap_or(if tier == "thorough" { 5400 } else { 900 })),
         run_timeout: Duration::from_secs(120),
     };
     #[derive(Default)]
@@ -728,7 +728,11 @@ fn worker_history(id: &str, tier: &str, seed: u64) -> ExitCode {
         samples: Vec<Value>,
     }
     let crumbs = CrumbWriter::new(id);
+    // VERIF_RUN_OFFSET: explore the run indices offset..offset+runs of the same seed (a thorough
+    // run that was cut short by the wall clock can be continued where it stopped)
+    let offset = env_u64("VERIF_RUN_OFFSET").unwrap_or(0);
     let out = run_batch(&batch, Acc::default, |run_index, acc: &mut Acc| {
+        let run_index = run_index + offset;
         crumbs.write(run_index, seed);
         let rs = run_seed(seed, id, run_index);
         let deep = tier == "thorough" && run_index % 2 == 1;
@@ -738,7 +742,7 @@ fn worker_history(id: &str, tier: &str, seed: u64) -> ExitCode {
             *st.probes.entry(k.to_string()).or_default() += v;
         }
         acc.stats.merge(st);
-        if run_index < 2 {
+        if run_index < offset + 2 {
             acc.samples.push(json!({"run_index": run_index, "run_seed": rs, "scenario": res.scenario, "steps_executed": res.steps_done}));
         }
         let mut mine = false;
@@ -815,6 +819,7 @@ fn worker_history(id: &str, tier: &str, seed: u64) -> ExitCode {
             "real_vs_stub": "affinitree, minilp, ndarray, slab run real code; the seam post-processes the real backend's answer (real mode: pass-through; legal mode: a different exactly-feasible witness)",
             "fault_kinds": "none injected in this check (legal alternatives only); faults are C11",
             "cut_short_by_wall_clock": out.cut_short,
+            "run_index_offset": offset,
             "violating_runs": n_viol_runs,
             "violations_of_other_properties_seen": other_props,
             "known_findings_hit": rep.known,
